@@ -650,6 +650,29 @@ Theorem logfmt_names_by_value : forall pairs, J.logfmt_all pairs = J.logfmt_all_
 Proof. exact JP.logfmt_names_by_value. Qed.
 Print Assumptions logfmt_names_by_value.
 
+(* `| logfmt l1="k1", l2="k2", ...` (distinct label names; two labels may name one key -- since the repair 563961f each is
+   extracted), for every list of pairs the decoder yields: every label holds the value of the LAST pair of the key its path
+   begins with, a label whose key does not occur is not assigned, and no other label is *)
+Theorem logfmt_fields_is_lookup : forall ps pairs l, NoDup (map fst ps) -> l <> EmptyString ->
+  JP.lfind (J.logfmt_fields ps pairs) l = match JP.first_key ps l with Some k => J.logfmt_lookup pairs k | None => None end.
+Proof. exact JP.logfmt_fields_is_lookup. Qed.
+Print Assumptions logfmt_fields_is_lookup.
+
+Theorem logfmt_meets_the_oracle : forall ps pairs i, NoDup (map fst ps) -> (forall a, List.In a ps -> fst a <> EmptyString) ->
+  J.l_spec_violation {| J.l_id := i; J.l_params := ps; J.l_pairs := Some pairs; J.l_obs := J.logfmt_decode ps (Some pairs) |} = false.
+Proof. exact JP.logfmt_meets_the_oracle. Qed.
+Print Assumptions logfmt_meets_the_oracle.
+
+Example logfmt_fields_hypotheses_met :
+  let ps := [("x_y", [J.PKey "level"]); ("lv", [J.PKey "level"]); ("m", [J.PKey "msg"; J.PKey "ignored"]); ("n", [J.PIdx 0])] in
+  let pairs := [("n", "2.5"); ("level", "info"); ("level", "warn")] in
+  NoDup (map fst ps) /\ (forall a, List.In a ps -> fst a <> EmptyString) /\
+  J.logfmt_fields ps pairs = [("lv", "warn"); ("x_y", "warn")].
+Proof.
+  cbn zeta. split; [repeat constructor; cbn; intuition discriminate|]. split; [|vm_compute; reflexivity].
+  intros a Ha. cbn in Ha. intuition (subst; discriminate).
+Qed.
+
 (* hypotheses met / the statements are not vacuous: two paths that share a prefix and a duplicate member *)
 Example walk_is_jlookup_hypotheses_met :
   let doc := J.JObj [("a", J.JObj [("b", J.JRaw "1")]); ("a", J.JObj [("c", J.JStr "2")]); ("a", J.JArr [J.JStr "3"])] in
